@@ -326,6 +326,9 @@ func (g *G) resolveType(s string, at ast.Node) *Type {
 		if _, ok := g.structs[bare]; ok {
 			return g.resolveType(bare, at)
 		}
+		if _, ok := g.spec.Types[bare]; ok {
+			return g.resolveType(bare, at)
+		}
 	}
 	if _, ok := g.structs[s]; ok {
 		t := &Type{Kind: KStruct, Name: s}
